@@ -50,6 +50,8 @@ def build_bundle(h, tree, counter, inline_roles=False):
     from hdl21.role import RoleSet
 
     counter[0] += 1
+    if inline_roles == "unnamed":
+        return build_bundle_unnamed(h, tree, counter)
     if inline_roles:
         return build_bundle_inline(h, tree, counter)
     b = h.Bundle(name=f"B{counter[0]}")
@@ -83,6 +85,31 @@ def build_bundle(h, tree, counter, inline_roles=False):
             kw["port"] = True  # a sub-bundle *instance* flagged as a port: port-ness is decided by the outermost instance alone
         inst = mk_flipped(h, sb, flip, kw)
         setattr(b, name, inst)
+    return b
+
+
+UNNAMED_ROLES = {}  # id(bundle) -> {"HOST": Role, ...} for bundles built with `h.Roles(n)` objects that are never named
+
+
+def build_bundle_unnamed(h, tree, counter):
+    """The same definition built procedurally with role objects straight from `HOST, DEVICE, OTHER = h.Roles(3)`: they
+    have no names; which is which is a matter of the objects."""
+    host, device, other = h.Roles(3)
+    b = h.Bundle(name=f"B{counter[0]}")
+    UNNAMED_ROLES[id(b)] = {"HOST": host, "DEVICE": device, "OTHER": other}
+    for name, kind, width in tree["leaves"]:
+        if kind in ("in", "out", "inout", "port"):
+            sg = {"in": h.Input, "out": h.Output, "inout": h.Inout, "port": h.Port}[kind](width=width)
+        else:
+            src, dest = {"role_hd": (host, device), "role_dh": (device, host), "src_h": (host, None), "dest_d": (None, device), "plain": (None, None)}[kind]
+            sg = h.Signal(width=width, src=src, dest=dest)
+        setattr(b, name, sg)
+    for name, sub, flip, srole in tree["subs"]:
+        sb = build_bundle(h, sub, counter, inline_roles="unnamed")
+        kw = {}
+        if srole:
+            kw["role"] = UNNAMED_ROLES[id(sb)][srole]
+        setattr(b, name, mk_flipped(h, sb, flip, kw))
     return b
 
 
@@ -131,11 +158,11 @@ def _one(item):
     want = ref_flatten(tree, "bb", is_port, inst_flip, inst_role)
     try:
         # class-style cases also declare their bundles as class bodies with in-line roles, instead of through a RoleSet
-        b = build_bundle(h, tree, [0], inline_roles=(style == "class"))
+        b = build_bundle(h, tree, [0], inline_roles=("unnamed" if style == "unnamed" else style == "class"))
         kw = dict(port=is_port)
         if inst_role:
             # the bundle's own Role object, or (procedural style) an equal one made elsewhere: roles compare by name
-            kw["role"] = getattr(b.roles, inst_role) if style == "class" else h.Role(name=inst_role)
+            kw["role"] = UNNAMED_ROLES[id(b)][inst_role] if style == "unnamed" else getattr(b.roles, inst_role) if style == "class" else h.Role(name=inst_role)
         bi = mk_flipped(h, b, inst_flip, kw)
         if style == "class":
             m = h.module(type("Subj", (), {"bb": bi, "zz": h.Signal()}))
@@ -199,6 +226,13 @@ def fan_trees():
                 yield {"leaves": [("top", "in", 1)], "subs": subs}
 
 
+def _kinds(t):
+    out = [kind for _n, kind, _w in t["leaves"]]
+    for _n, sub, _f, _r in t["subs"]:
+        out += _kinds(sub)
+    return out
+
+
 def run(ctx):
     items = []
     tops = [(p, f, r) for p in (True, False) for f in TOP_FLIPS for r in ROLES]
@@ -210,7 +244,7 @@ def run(ctx):
             if k % stride != (ctx.seed % stride):
                 continue
             for j, (p, f, r) in enumerate(tops_sel):
-                items.append((t, p, f, r, "class" if (k + j) % 2 else "proc"))
+                items.append((t, p, f, r, ("class", "proc", "unnamed", "proc", "class", "unnamed")[(k + j) % 6] if any(kk not in ("in", "out", "inout", "port", "plain") for kk in _kinds(t)) else ("class" if (k + j) % 2 else "proc")))
         fam_sizes[fam] = len(items) - n0
 
     add("flat", list(flat_trees()), tops)
